@@ -710,7 +710,7 @@ func helperExcludesNil(ix *idxEngine, cond ssa.Value, val bool, v ssa.Value) boo
 			if last, isIf := rc.Via.Instrs[len(rc.Via.Instrs)-1].(*ssa.If); isIf {
 				if e, nn, isT := nilTest(last.Cond); isT && e == ssa.Value(par) {
 					for si, s := range rc.Via.Succs {
-						if blockReach(s, nil)[rc.Ret.Block()] && si == nn {
+						if s == rc.Into && si == nn {
 							nonNil = true
 						}
 					}
